@@ -310,7 +310,9 @@ impl Transformation {
         for (i, (pos, number)) in cell.positions.iter().zip(cell.numbers.iter()).enumerate() {
             for lattice_point in lattice_points.iter() {
                 // Fractional coordinates in the new sublattice
-                let new_position = (self.linear_inv * (pos + lattice_point)).map(|e| e % 1.);
+                // (P, p)^-1 (x + n) = P^-1 (x + n - p)
+                let new_position =
+                    (self.linear_inv * (pos + lattice_point - self.origin_shift)).map(|e| e % 1.);
                 new_positions.push(new_position);
                 new_numbers.push(*number);
                 site_mapping.push(i);
